@@ -226,11 +226,166 @@ def handleFile (args impl : List String) : Option Reply := do
     | _ => "bad:unexpected_reply_class"
   pure (exact model2 implS verdict)
 
+/-! ### `mgfbig`: large files through the file route, described by a small request
+
+`mgfbig fid style crlf nblocks pad a b [pepmass tokens] [header lines] [templates] [table] [codepoints]`
+The text (see `harness/src/ops/c17.rs`) is header lines, `#` + pad×`x`, then per block `BEGIN IONS`, the lines of
+template `((i*a+b) % 1000003) % m` with U+0001 ↦ decimal `i` and U+0002 ↦ pepmass token `i % k`, `END IONS`, an
+empty line; every line ended by LF or CRLF. The driver does not materialise the megabytes of text: every line is
+free of `\n` and does not end in `\r` (checked), so by `classifyText_join` / `rustLines_join_crlf`
+(`Props/C17.lean`, `Lemmas/C17Text.lean`) the reader sees exactly `lines.map (classify ∘ trim)`, which is what is
+built here (lines without placeholder are classified once per template). Model and spec run in O(lines).
+Replies carry one short record per spectrum (file id, title, charges, first isolation window, FNV-1a-64 of the
+canonical spectrum text) and a total digest. -/
+
+def fnv (s : String) : Nat :=
+  (s.toUTF8.foldl (fun (h : UInt64) b => (h ^^^ b.toUInt64) * 0x100000001b3) 0xcbf29ce484222325).toNat
+
+structure BRec where
+  fid : Nat
+  id : List UInt8
+  charges : List (Option Nat)
+  win : Option (String × Nat × Nat)
+  digest : Nat
+deriving BEq, Repr
+
+def toRec (s : ISpec) : BRec :=
+  { fid := s.fid, id := s.id, charges := s.precs.map (·.charge), win := s.precs.head?.bind (·.window),
+    digest := fnv (renderSpec s) }
+
+def renderRec (r : BRec) : String :=
+  " ".intercalate [toString r.fid, hex r.id, outList (outOpt toString) r.charges,
+    (match r.win with
+     | none => "0"
+     | some (u, lo, hi) => s!"1 {u} {lo} {hi}"), toString r.digest]
+
+def totalDigest (rs : List BRec) : Nat := fnv (" ".intercalate (rs.map fun r => toString r.digest))
+
+def pRec : P BRec := do
+  let fid ← nat
+  let id ← bytes
+  let charges ← list (opt nat)
+  let hasW ← nat
+  let win ← (if hasW == 0 then pure none else do
+    let u ← tok
+    let lo ← nat
+    let hi ← nat
+    pure (some (u, lo, hi)))
+  let digest ← nat
+  pure { fid, id, charges, win, digest }
+
+def bigReplyPart (rs : List BRec) (withRecs : Bool) : String :=
+  let head := s!"ok {rs.length} {totalDigest rs}"
+  if withRecs && !rs.isEmpty then head ++ " " ++ " ".intercalate (rs.map renderRec) else head
+
+/-- first clause broken by the file route's records; `directOk` = the direct parse's total digest is the expected one -/
+def cmpBig (fid : Nat) (directOk : Bool) : Nat → List BRec → List BRec → String
+  | _, [], [] => "ok"
+  | i, [], _ :: _ => s!"bad:extra_spectrum@{i}"
+  | i, _ :: _, [] => s!"bad:missing_spectrum@{i}"
+  | i, w :: ws, g :: gs =>
+    if g.fid != fid then s!"bad:file_id@{i}"
+    else if g.id != w.id then s!"bad:title@{i}"
+    else if g.charges.length != w.charges.length then s!"bad:precursor_count@{i}"
+    else if g.charges != w.charges then s!"bad:charge@{i}"
+    else if g.win != w.win then s!"bad:window@{i}"
+    else if g.digest != w.digest then (if directOk then s!"bad:file_route_differs@{i}" else s!"bad:spectrum_differs@{i}")
+    else cmpBig fid directOk (i + 1) ws gs
+
+def substLine (i : Nat) (pep : Array (List Char)) (l : List Char) : List Char :=
+  l.flatMap fun c =>
+    if c.toNat == 1 then (toString i).toList
+    else if c.toNat == 2 then (if pep.size == 0 then [] else pep[i % pep.size]!)
+    else [c]
+
+def isDynamic (l : List Char) : Bool := l.any fun c => c.toNat == 1 || c.toNat == 2
+
+def handleBig (args impl : List String) : Option Reply := do
+  let (fid, _style, _crlf, nblocks, pad, a, b, pepRaw, hdrRaw, tplRaw, tblRaw, nums) ← run (do
+    let fid ← nat
+    let style ← nat
+    let crlf ← bool
+    let nblocks ← nat
+    let pad ← nat
+    let a ← nat
+    let b ← nat
+    let pep ← list bytes
+    let hdr ← list bytes
+    let tpl ← list (list bytes)
+    let tbl ← list (do let t ← bytes; let v ← opt nat; pure (t, v))
+    let nums ← list nat
+    pure (fid, style, crlf, nblocks, pad, a, b, pep, hdr, tpl, tbl, nums)) args
+  let dec : List UInt8 → Option (List Char) := fun bs => (String.fromUTF8? (ByteArray.mk bs.toArray)).map (·.toList)
+  let pep ← pepRaw.mapM dec
+  let hdr ← hdrRaw.mapM dec
+  let tpl ← tplRaw.mapM (·.mapM dec)
+  let tbl ← tblRaw.mapM fun (t, v) => do
+    let s ← String.fromUTF8? (ByteArray.mk t.toArray)
+    pure (s, v.map fun b => Float32.ofBits b.toUInt32)
+  -- the lines must be writable as they are (hypotheses of `classifyText_join` / `rustLines_join_crlf`)
+  let clean : List Char → Bool := fun l => !l.contains '\n' && l.getLast? != some '\r'
+  if !((pep ++ hdr ++ tpl.flatten).all clean) then none else
+  let isNum : Char → Bool := fun c => c.isDigit || nums.contains c.toNat
+  let pepA := pep.toArray
+  let build (pf : String → Option Float32) (n : Nat) (padLen : Nat) : List (Line Float32) :=
+    let cl : List Char → Line Float32 := fun l => classify pf isNum (trim l)
+    let tplC : Array (List (Sum (Line Float32) (List Char))) :=
+      (tpl.map fun t => t.map fun l => if isDynamic l then Sum.inr l else Sum.inl (cl l)).toArray
+    let lBegin := cl "BEGIN IONS".toList
+    let lEnd := cl "END IONS".toList
+    let lBlank := cl []
+    let block (i : Nat) (tail : List (Line Float32)) : List (Line Float32) :=
+      let body : List (Line Float32) :=
+        if tplC.size == 0 then [] else
+          (tplC[((i * a + b) % 1000003) % tplC.size]!).map fun x =>
+            match x with
+            | .inl l => l
+            | .inr raw => cl (substLine i pepA raw)
+      lBegin :: (body ++ lEnd :: lBlank :: tail)
+    let blocks := Nat.fold n (fun k _ acc => block (n - 1 - k) acc) []
+    hdr.map cl ++ cl ('#' :: List.replicate padLen 'x') :: blocks
+  -- guard: the token table covers every template line with every pepmass token
+  let k := max pep.length 1
+  let sampleOk :=
+    (List.range (max tpl.length 1)).all fun t => (List.range k).all fun j =>
+      let one (pf : String → Option Float32) : String :=
+        let cl : List Char → Line Float32 := fun l => classify pf isNum (trim l)
+        renderReply fid (parseLines (hdr.map cl ++ .beginIons :: ((tpl.getD t []).map fun l => cl (substLine j pepA l)) ++ [.endIons]))
+      one (lookup tbl none) == one (lookup tbl (some (Float32.ofBits 0x3fc00000)))
+  if !sampleOk then pure { model := "token-table-incomplete", agree := false, spec := "na" } else
+  let doc := build (lookup tbl none) nblocks pad
+  let modelRecs := (parseLines doc).map fun s => toRec (toI fid s)
+  let wantRecs := (specSpectra doc).map fun s => toRec (toI fid s)
+  let model := s!"file {bigReplyPart modelRecs true} direct {bigReplyPart modelRecs false}"
+  let implS := " ".intercalate impl
+  let verdict : String :=
+    match impl with
+    | "file" :: rest =>
+      let filePart := rest.takeWhile (· != "direct")
+      let directPart := (rest.dropWhile (· != "direct")).drop 1
+      let directOk := directPart == ["ok", toString wantRecs.length, toString (totalDigest wantRecs)]
+      (match filePart with
+       | ["panic"] => "bad:panic"
+       | "ok" :: r =>
+         (match run (do let n ← nat; let _ ← nat; listN pRec n) r with
+          | none => "na"
+          | some got =>
+            let v := cmpBig fid directOk 0 wantRecs got
+            if v != "ok" then v
+            else if directPart == ["panic"] then "bad:panic"
+            else if !directOk then "bad:direct_parse_differs"
+            else "ok")
+       | _ => "bad:file_route_error_on_wellformed_document")
+    | ["panic"] => "bad:panic"
+    | _ => "bad:unexpected_reply_class"
+  pure (exact model implS verdict)
+
 def handle (op : String) (args impl : List String) : Option Reply :=
   match op with
   | "mgf" => some ((handleMgf args impl).getD badRequest)
   | "mgfraw" => some ((handleMgf args impl).getD badRequest)
   | "mgffile" => some ((handleFile args impl).getD badRequest)
+  | "mgfbig" => some ((handleBig args impl).getD badRequest)
   | _ => none
 
 end Sage.C17
